@@ -120,10 +120,12 @@ func TestSeatHistories(t *testing.T) {
 
 type betweenCase struct {
 	Max      int    `json:"max"`
-	Seated   []int  `json:"seated"`   // seats taken (joined and sat in) before the first hand
-	Nexts    int    `json:"nexts"`    // hands played before the newcomer arrives
-	Newcomer int    `json:"newcomer"` // index into the candidate seats strictly between dealer and bb
-	Seat     int    `json:"seat"`     // the seat chosen (filled in by the run)
+	Seated   []int  `json:"seated"`              // seats taken (joined and sat in) before the first hand
+	Nexts    int    `json:"nexts"`               // hands played before the newcomer arrives
+	Newcomer int    `json:"newcomer"`            // index into the candidate seats strictly between dealer and bb
+	Seat     int    `json:"seat"`                // the seat chosen (filled in by the run)
+	Ghosts   int    `json:"ghosts,omitempty"`    // players who took that seat and left again before the newcomer came
+	GhostSat bool   `json:"ghost_sat,omitempty"` // ... and had sat in
 	Trace    string `json:"trace,omitempty"`
 }
 
@@ -160,11 +162,23 @@ func runBetween(c *betweenCase) (v *vlib.Violation, valid bool) {
 	}
 	x := cands[c.Newcomer%len(cands)]
 	c.Seat = x
+	// somebody may have tried the seat and left again: it is an empty seat all the same
+	for g := 0; g < c.Ghosts; g++ {
+		if _, err := m.Join(x, fmt.Sprintf("ghost%d", g)); err != nil {
+			return vlib.V("C08", "newcomer/join-refused", "max=%d seated=%v nexts=%d: Join(%d) failed: %v", c.Max, c.Seated, c.Nexts, x, err), true
+		}
+		if c.GhostSat {
+			m.Seat(x)
+		}
+		if err := m.Leave(x); err != nil {
+			return nil, false
+		}
+	}
 	if _, err := m.Join(x, "newcomer"); err != nil {
 		return vlib.V("C08", "newcomer/join-refused", "max=%d seated=%v nexts=%d: Join(%d) between dealer %d and bb %d failed: %v", c.Max, c.Seated, c.Nexts, x, d, b, err), true
 	}
 	m.Seat(x)
-	tr := fmt.Sprintf("max=%d seated=%v hands=%d dealer=%d bb=%d newcomer@%d", c.Max, c.Seated, c.Nexts, d, b, x)
+	tr := fmt.Sprintf("max=%d seated=%v hands=%d dealer=%d bb=%d newcomer@%d (seat tried and left %d time(s) before)", c.Max, c.Seated, c.Nexts, d, b, x, c.Ghosts)
 	if playable(m)[x] {
 		return vlib.V("C08", "newcomer/dealt-in-early", "%s: playable before the button moved", tr), true
 	}
@@ -210,11 +224,16 @@ func TestNewcomerBetween(t *testing.T) {
 		c.Seated = rapid.Permutation(all).Draw(rt, "seats")[:k]
 		c.Nexts = rapid.IntRange(1, c.Max+2).Draw(rt, "hands")
 		c.Newcomer = rapid.IntRange(0, c.Max).Draw(rt, "newcomer")
+		if rapid.IntRange(0, 2).Draw(rt, "ghost") == 0 {
+			c.Ghosts = rapid.IntRange(1, 2).Draw(rt, "ghosts")
+			c.GhostSat = rapid.Bool().Draw(rt, "ghostSat")
+		}
 		v, valid := runBetween(c)
 		st.Evaluations++
 		if valid {
 			st.Class("valid-in-between-seat")
-			st.NonTrivial(vlib.Hash(c.Max, c.Seated, c.Nexts, c.Seat))
+			st.NonTrivial(vlib.Hash(c.Max, c.Seated, c.Nexts, c.Seat, c.Ghosts, c.GhostSat))
+			st.ClassIf(c.Ghosts > 0, "seat-tried-and-left-before")
 			st.Sample(c)
 		}
 		return vlib.Outcome{Case: c, Violation: v}
